@@ -525,4 +525,70 @@ example : ∀ x ∈ crashStates fkEnv fkNode fkCrashOps, 2 ∈ chainOf fkEnv (re
 example : recover fkEnv (run fkEnv fkNode fkCrashOps) = (run fkEnv fkNode fkCrashOps, true) :=
   (restart_quiescent fkEnv _ (by decide)).1
 
+-- ================================================================== 5. requests in flight at once
+
+/-- **Two requests in flight at once**, as the check `walkrace` schedules them on the real node: the second request is started
+while the first is inside the state-machine lock (or about to take it), and the goroutines in which successful walks submit again
+what they rolled back run after both requests have returned. One at a time that is a HISTORY: the two requests (a walk
+carries the whole pool as its skip list - it resubmits nothing itself) followed by the resubmissions. The node
+must end in the state of one of the two orders: -/
+def raceOrders (a b : HOp) (resub : List HOp) : List (List HOp) := [a :: b :: resub, b :: a :: resub]
+
+theorem race_noPrune (a b : HOp) (resub : List HOp) (ha : isPrune a = false) (hb : isPrune b = false)
+    (hr : NoPrune resub) : ∀ ops ∈ raceOrders a b resub, NoPrune ops := by
+  intro ops hops
+  simp only [raceOrders, List.mem_cons, List.not_mem_nil, or_false] at hops
+  rcases hops with rfl | rfl
+  · exact (noPrune_cons _ _).mpr ⟨ha, (noPrune_cons _ _).mpr ⟨hb, hr⟩⟩
+  · exact (noPrune_cons _ _).mpr ⟨hb, (noPrune_cons _ _).mpr ⟨ha, hr⟩⟩
+
+/-- whichever of the two orders the node's state equals, the irreversible height is not below the height before the race -/
+theorem race_irrev_mono (e : Env) (s : St) (pre : List HOp) (a b : HOp) (resub : List HOp) (ha : isPrune a = false)
+    (hb : isPrune b = false) (hr : NoPrune resub) :
+    ∀ ops ∈ raceOrders a b resub, (hrun e s pre).irrev ≤ (hrun e s (pre ++ ops)).irrev :=
+  fun ops hops => irrev_history_mono_suffix e s pre ops (race_noPrune a b resub ha hb hr ops hops)
+
+/-- **in either order a block that was irreversible before the race is on the state machine's chain after it** (and still at
+or below the irreversible height) -/
+theorem race_keeps_irreversible (e : Env) (ht : TreeOK e) (s : St) (pre : List HOp) (a b : HOp) (resub : List HOp)
+    (ha : isPrune a = false) (hb : isPrune b = false) (hr : NoPrune resub) (x : Nat)
+    (hx : x ∈ chainOf e (hrun e s pre).pointer) (hh : ((e.block x).height : Int) ≤ (hrun e s pre).irrev) :
+    ∀ ops ∈ raceOrders a b resub,
+      x ∈ chainOf e (hrun e s (pre ++ ops)).pointer ∧ ((e.block x).height : Int) ≤ (hrun e s (pre ++ ops)).irrev := by
+  intro ops hops
+  rw [hrun_append]
+  exact irreversible_block_stays_from e ht ops _ (race_noPrune a b resub ha hb hr ops hops) x hx hh
+
+/-- **what the request that ran first made irreversible binds the one that waited for the lock**: a block that is on the chain
+the first request leaves the state machine on, at or below the irreversible height of that moment, is on the chain after the
+second request and all resubmissions - the second request must plan from the block the first one left, not from the block it
+saw when it was called (`example` below: a walk that plans from the tip it read before it got the lock loses such a block) -/
+theorem race_first_binds_second (e : Env) (ht : TreeOK e) (s : St) (first second : HOp) (resub : List HOp)
+    (h2 : isPrune second = false) (hr : NoPrune resub) (x : Nat)
+    (hx : x ∈ chainOf e (hstep e s first).pointer) (hh : ((e.block x).height : Int) ≤ (hstep e s first).irrev) :
+    x ∈ chainOf e (hrun e s (first :: second :: resub)).pointer ∧
+    ((e.block x).height : Int) ≤ (hrun e s (first :: second :: resub)).irrev := by
+  rw [hrun_cons]
+  exact irreversible_block_stays_from e ht (second :: resub) _ ((noPrune_cons _ _).mpr ⟨h2, hr⟩) x hx hh
+
+-- the node has played 1 and 2 (window 2, irreversible height 0); a walk to 25 (fork on block 2, heights 3..5) and a walk to
+-- 4 (trunk, heights 3, 4) are requested at once. Walk 25 first: it makes block 23 irreversible (height 3 = 5 - 2), the walk to
+-- 4 undoes 25 and 24 and is refused at 23. Walk 4 first: the walk to 25 undoes 4 and 3 (both above the height 2) and succeeds.
+private def fkRaceStart : St := hrun fkEnv {} [.play 0 1, .play 0 2]
+example : (raceOrders (.walk 0 25) (.walk 0 4) []).map (fun ops =>
+      ((hrun fkEnv fkRaceStart ops).pointer, (hrun fkEnv fkRaceStart ops).irrev)) = [(23, 3), (25, 3)] := by decide
+example : ∀ ops ∈ raceOrders (.walk 0 25) (.walk 0 4) [], 23 ∈ chainOf fkEnv (hrun fkEnv fkRaceStart ops).pointer := by decide
+-- the theorem applied: block 23 is irreversible once the walk to 25 has run, so it is on the chain after the walk to 4
+example : 23 ∈ chainOf fkEnv (hrun fkEnv fkRaceStart [.walk 0 25, .walk 0 4]).pointer :=
+  (race_first_binds_second fkEnv (by decide) fkRaceStart (.walk 0 25) (.walk 0 4) [] rfl (by decide) 23 (by decide) (by decide)).1
+-- **a walk that plans from the tip it read BEFORE it got the lock** (the walk to 4 was called while the node was at block 2
+-- and computes its undo / todo lists from block 2 although the walk to 25 has run meanwhile): nothing to undo, 3 and 4 are
+-- applied, the walk reports success at block 4 with irreversible height 3 - block 23 (height 3) is not on that chain, and the
+-- state is that of neither order
+example :
+    let stale := walk fkEnv { hstep fkEnv fkRaceStart (.walk 0 25) with pointer := fkRaceStart.pointer } 0 4 false
+    stale.2 = true ∧ stale.1.pointer = 4 ∧ stale.1.irrev = 3 ∧
+    23 ∈ irrevBlocks fkEnv (hstep fkEnv fkRaceStart (.walk 0 25)) ∧ 23 ∉ chainOf fkEnv stale.1.pointer ∧
+    ∀ ops ∈ raceOrders (.walk 0 25) (.walk 0 4) [], (hrun fkEnv fkRaceStart ops).pointer ≠ stale.1.pointer := by decide
+
 end XV.C17
